@@ -276,6 +276,32 @@ class Gen(object):
                  'Any': '1/0', 'Date': '1/0', 'ChoiceList': '1/0', 'Choice': '1/0'}.get(base, '')
     return ['AddColumn', tid, cid, {'type': typ, 'isFormula': False, 'formula': formula}]
 
+  def ua_make_trigger(self, view, tid):
+    """Turn a data column into a TRIGGER-formula column: a formula that is re-run when one of its recalcDeps
+    cells changes (recalcWhen 0) or on every manual update of the record (recalcWhen 2).  Some of the
+    formulas depend on the cell's own stored value (`value`), so that an extra or a missing evaluation
+    shows."""
+    r = self.rng
+    t = view.tables[tid]
+    if t["summary"]:
+      return None
+    dcols = [c for c in view.data_cols(tid)
+             if t["cols"][c][1] in ('Int', 'Numeric', 'Text', 'Any') and not getattr(t["cols"][c][4], 'recalcDeps', None)]
+    if len(dcols) < 2:
+      return None
+    c = r.choice(dcols)
+    dep = r.choice([d for d in dcols if d != c])
+    typ = t["cols"][c][1]
+    if typ in ('Int', 'Numeric'):
+      f = r.choice(['(value or 0) + 1', '(value or 0) + 1', 'len(str($%s))' % dep])
+    elif typ == 'Text':
+      f = r.choice(['"t%%s" %% ($%s,)' % dep, '(value or "")[:3] + "x"'])
+    else:
+      f = r.choice(['(value or 0) + 1 if not isinstance(value, str) else 1', '$%s' % dep])
+    when = r.choice([0, 0, 2])
+    return ['UpdateRecord', '_grist_Tables_column', t["cols"][c][0],
+            {'formula': f, 'recalcWhen': when, 'recalcDeps': ['L', t["cols"][dep][0]] if when == 0 else None}]
+
   def ua_remove_column(self, view, tid):
     # clean-history rule: never remove something a formula still mentions (stale/NameError zone,
     # explored separately by the C05 check)
@@ -614,6 +640,20 @@ class Gen(object):
           return [ua]
         if has_summary and ua[0] in SCHEMA_UAS and not (ua[0] == 'ModifyColumn' and 'type' not in ua[3]):
           return [ua]       # schema changes reshape summary tables too (formula / isFormula edits do not)
+    # "edit, then reshape the same column" in one bundle: the value change and the removal / rename / type
+    # change of a data column meet in the undo list and in the calc summary of the same bundle
+    final = []
+    for ua in out:
+      if ua[0] in ('RemoveColumn', 'RenameColumn', 'ModifyColumn') and r.random() < 0.35:
+        tid, cid = ua[1], ua[2]
+        t = view.tables.get(tid)
+        if t and not t["summary"] and t["rows"] and cid in view.data_cols(tid):
+          ids = r.sample(t["rows"], r.randint(1, min(2, len(t["rows"]))))
+          vals = [self.value(t["cols"][cid][1], view) for _ in ids]
+          final.append(['UpdateRecord', tid, ids[0], {cid: vals[0]}] if len(ids) == 1
+                       else ['BulkUpdateRecord', tid, ids, {cid: vals}])
+      final.append(ua)
+    out = final
     if invalid_prob and r.random() < invalid_prob:
       out.append(self.ua_invalid(view))
     return out
@@ -640,15 +680,15 @@ PROFILES = {
   "twoway": {"add_records": 14, "update_records": 6, "update_refs": 25, "remove_records": 12,
              "add_ref_column": 8, "add_reverse": 12, "switch_ref_type": 8, "remove_column": 4,
              "rename_column": 3, "add_table": 3, "remove_table": 1},
-  "refs": {"replace_data": 3, "add_records": 18, "update_records": 8, "update_refs": 22, "remove_records": 22,
+  "refs": {"make_trigger": 2, "replace_data": 3, "add_records": 18, "update_records": 8, "update_refs": 22, "remove_records": 22,
            "add_ref_column": 10, "add_column": 5, "modify_column": 4, "remove_table": 2, "add_table": 4,
            "rename_choices": 4},
-  "general": {"add_records": 20, "update_records": 20, "remove_records": 8, "add_column": 10,
+  "general": {"make_trigger": 5, "add_records": 20, "update_records": 20, "remove_records": 8, "add_column": 10,
               "remove_column": 4, "rename_column": 5, "modify_column": 8, "rename_table": 2,
               "remove_table": 1, "add_table": 3, "meta_label": 2},
-  "records": {"add_records": 35, "update_records": 35, "remove_records": 15, "add_column": 5,
+  "records": {"make_trigger": 5, "add_records": 35, "update_records": 35, "remove_records": 15, "add_column": 5,
               "modify_column": 3, "add_table": 2, "replace_data": 4},
-  "schema": {"add_records": 10, "update_records": 10, "remove_records": 4, "add_column": 15,
+  "schema": {"make_trigger": 5, "add_records": 10, "update_records": 10, "remove_records": 4, "add_column": 15,
              "remove_column": 10, "rename_column": 12, "modify_column": 18, "rename_table": 6,
              "remove_table": 3, "add_table": 6, "meta_label": 6},
 }
